@@ -75,6 +75,12 @@ CLAIMED = {
              "are refused without effect, wtmax fits the journal (arithmetic); correspondence + implementation-side probe at limit and limit+1.",
         design_ref="DESIGN.md 5/C19", note="trusted: Lean kernel, translator (announce/consts), reference model, harness",
         technique="Lean 4 proof over regenerated constants + correspondence"),
+    "C14": dict(category="proof",
+        text="PARTIAL by nature. Lean theorems: lockset discipline implies a release->acquire edge between conflicting accesses; for the control skeleton of every function of nfs/, dir/, "
+             "shrinker/ (REGENERATED from the source on every run, 860 statements classified) no path uses an inode variable after the commit/abort that released its lock — path-sensitive "
+             "abstract execution decided by the kernel over the regenerated table. Recorded lock events of concurrent runs validated; thorough tier: Go race detector as search.",
+        design_ref="DESIGN.md 5/C14", note="trusted: Lean kernel, the go/ast skeleton extractor, fstxn hooks; outside: Go memory model, go-journal internals, non-inode shared state (own mutexes/atomics)",
+        technique="Lean 4 proof over regenerated control skeletons + lock-trace validation (+ race detector as search)"),
     "C15": dict(
         category="proof",
         text="Lean 4 theorems (for every disk size, no bound) about the layout arithmetic REGENERATED from super/super.go and "
